@@ -1,7 +1,8 @@
 """Hand-written parameterised templates for feature areas the model-based generators do not reach.
 No reference model: these programs feed the differential checks (C04, C18) only."""
 
-TEMPLATES = ["dup_class_names", "big_string", "many_functions", "control_flow", "string_builtins", "optionals", "numeric_kinds"]
+TEMPLATES = ["dup_class_names", "big_string", "many_functions", "control_flow", "string_builtins", "optionals", "numeric_kinds",
+             "many_locals", "deep_expr", "long_ident", "many_args", "many_closures", "deep_nesting"]
 SPECIALS = ['\\"', "\\\\", " ", "\\t", "\\n", "é", " ", "n", "#", "'"]
 
 
@@ -57,6 +58,48 @@ def render(spec):
         L.append("pick = fn(x: int) -> str? {\n\tif x > %d {\n\t\treturn \"big\"\n\t}\n\treturn nil\n}\nprint pick(%d)\nprint (pick(0)) or \"small\"" % (a, b))
         L.append("w: str? = nil\nif w ?= pick(%d) {\n\tprint \"got \" + w\n} else {\n\tprint \"none\"\n}" % b)
         L.append("xs: [int?...] = [1, nil, %d]\nprint xs\nprint xs[1] == nil" % a)
+    elif t == "many_locals":
+        n = spec["n"]
+        for i in range(n):
+            L.append("q%d = %d" % (i, (i * a) % 97))
+        L.append("acc = 0")
+        for i in range(0, n, max(1, n // 30)):
+            L.append("acc = acc + q%d" % i)
+        L.append("print acc")
+    elif t == "deep_expr":
+        n = min(spec["n"], 150)
+        L.append("x = %d" % a)
+        L.append("print " + " + ".join(["x", str(b)] * n))
+        depth = min(n, 40)
+        L.append("print " + "(" * depth + "x" + " + 1)" * depth)
+        L.append('print "s" + ' + " + ".join(['"%d"' % (i % 10) for i in range(n)]))
+    elif t == "long_ident":
+        name = "v" + "abcdefghij" * max(3, spec["n"] // 10)
+        L.append("%s = %d" % (name, a))
+        L.append("f_%s = fn(p_%s: int) -> int {\n\treturn p_%s + %s\n}" % (name, name, name, name))
+        L.append("print f_%s(%d)" % (name, b))
+    elif t == "many_args":
+        k = 4 + spec["n"] % 9
+        ps = ", ".join("p%d: int" % i for i in range(k))
+        L.append("f = fn(%s) -> int {\n\treturn %s\n}" % (ps, " + ".join("p%d * %d" % (i, i + 1) for i in range(k))))
+        L.append("print f(%s)" % ", ".join(str((a + i) % 7) for i in range(k)))
+        L.append("g = fn() -> int {\n\treturn %d\n}\nprint g()" % b)
+        L.append("h = fn(q: int) {\n\tprint q\n}\nh(%d)" % a)
+    elif t == "many_closures":
+        n = min(spec["n"], 300)
+        L.append("base = %d\nfs: [fn(int) -> int...] = []" % a)
+        for i in range(n):
+            L.append("fs.push(fn(x: int) -> int {\n\treturn x + base + %d\n})" % i)
+        L.append("acc = 0\nfrom 0 to fs.len(), i {\n\tf = fs[i]\n\tacc = acc + f(1)\n}\nprint acc")
+    elif t == "deep_nesting":
+        depth = 3 + spec["n"] % 12
+        L.append("x = %d\nacc = 0" % a)
+        for d in range(depth):
+            L.append("\t" * d + ("if x > %d {" % (d - 50) if d % 2 == 0 else "while acc < %d {" % (d + 1)))
+            L.append("\t" * (d + 1) + "acc = acc + 1")
+        for d in range(depth - 1, -1, -1):
+            L.append("\t" * d + "}")
+        L.append("print acc")
     else:
         L.append("i = %d\nb = B%d\nf = %d.5\ny = 0b101\nh = 0x1F" % (a, b * 1000003, a))
         L.append("print i + b\nprint b * b\nprint f * i\nprint y + y\nprint h\nprint i / 2\nprint 0 - i % 3\nprint f / 2\nprint b % 7")
